@@ -9,6 +9,7 @@ package getoptions
 import (
 	"math"
 	"strconv"
+	"strings"
 )
 
 func vNativeReset() {
@@ -148,3 +149,57 @@ func setUnknown(opt *GetOpt, um int) {
 		opt.SetUnknownMode(Pass)
 	}
 }
+
+// eqStrs compares two string slices element-wise without forking.
+func eqStrs(a, b []string) bool {
+	if len(a) != len(b) {
+		return false
+	}
+	ok := true
+	for i := range a {
+		ok = vAnd(ok, a[i] == b[i])
+	}
+	return ok
+}
+
+func eqInts(a, b []int) bool {
+	if len(a) != len(b) {
+		return false
+	}
+	ok := true
+	for i := range a {
+		ok = vAnd(ok, a[i] == b[i])
+	}
+	return ok
+}
+
+// endsWith reports whether s ends with the given tail.
+func endsWith(s []string, tail ...string) bool {
+	if len(s) < len(tail) {
+		return false
+	}
+	return eqStrs(s[len(s)-len(tail):], tail)
+}
+
+func cat(parts ...[]string) []string {
+	out := []string{}
+	for _, p := range parts {
+		out = append(out, p...)
+	}
+	return out
+}
+
+// positional makes a symbolic token that is a plain positional argument:
+// it does not start with '-' and is not one of the given command names.
+func positional(name string, commands ...string) string {
+	p := vString(name)
+	vAssume(!strings.HasPrefix(p, "-"))
+	for _, c := range commands {
+		vAssume(p != c)
+	}
+	return p
+}
+
+// isOptionLooking: the token starts with '-' (how the statements of C01/C02
+// describe a token that "looks like an option").
+func isOptionLooking(s string) bool { return strings.HasPrefix(s, "-") }
